@@ -50,6 +50,13 @@ def duplicable (name : String) : Bool :=
    | none => true) ||
   !(implsOf .clone name).isEmpty || !(implsOf .copy name).isEmpty
 
+/-- does a value of the struct keep the matrix mutably borrowed for its whole lifetime `'a`?  (a
+`&'a mut` field or the `PhantomData<&'a mut T>` marker; raw pointers alone carry no lifetime) -/
+def holdsMutBorrow (name : String) : Bool :=
+  match iterStructs.find? (·.name == name) with
+  | some s => s.fields.contains .phantomMutRef || s.fields.contains .mutRef
+  | none => false
+
 /-- the struct behind the opaque type returned by `iter_rows_mut` / `iter_cols_mut`: the common
 constructor type of all four (entry point, order) arms -/
 def outerType : Option String :=
